@@ -244,6 +244,27 @@ def run(chk, ctx):
         for nm, okc, text in r_[0]:
             chk.ob('C10.L', 'header.ContentHeader(%s)' % nm, okc,
                    'stores %s' % text, site='pamqp/header.py')
+    # ... and every property that is set reaches the wire: each of the
+    # property names has an encoder call on its value in the encoded header
+    from .. import hdrlayout as H
+    from .. import codec as _codec
+    he_ = H.encode(ctx, _codec.FramePolicy(prog))
+    if he_.get('term') is None:
+        chk.undecide('C10.L', 'content header properties', 'frame.marshal '
+                     'has no return for a content header')
+    else:
+        sent = {t.args[1].args[0] for t in T.subterms(he_['term'])
+                if t.op == 'enc' and isinstance(t.args[1], Sym) and
+                t.args[1].op == 'field'}
+        want_ = list(ctx.slots_of(he_['pci']))
+        lost = [n_ for n_ in want_ if n_ not in sent]
+        chk.ob('C10.L', 'content header properties', not lost,
+               'all %d properties are encoded when set' % len(want_)
+               if not lost else 'propert%s %s never reach%s the wire: a '
+               'value assigned to it is dropped without an error' % (
+                   'y' if len(lost) == 1 else 'ies', ', '.join(lost),
+                   'es' if len(lost) == 1 else ''),
+               site='pamqp/base.py')
     # key truncation must be announced
     truncation_check(chk, ctx)
     chk.assume('values of foreign types that subclass the guarded types '
